@@ -60,9 +60,11 @@ HMAX = 4
 # OpenSMILES "normal valences" of the organic subset (independent reference for the search oracle)
 NORMAL_VALENCE = {5: (3,), 6: (4,), 7: (3, 5), 8: (2,), 9: (1,), 15: (3, 5), 16: (2, 4, 6), 17: (1,), 35: (1,), 53: (1,)}
 
-# valence electrons of the p-block elements (groups 13-17), for the Lewis electron-count oracle (Bi left out)
-VALENCE_ELECTRONS = {5: 3, 13: 3, 31: 3, 49: 3, 81: 3, 6: 4, 14: 4, 32: 4, 50: 4, 82: 4, 7: 5, 15: 5, 33: 5, 51: 5,
-                     8: 6, 16: 6, 34: 6, 52: 6, 84: 6, 9: 7, 17: 7, 35: 7, 53: 7, 85: 7}
+# valence electrons of the main-group elements (groups 1, 2, 13-18; H and Bi left out), for the Lewis electron-count oracle
+VALENCE_ELECTRONS = {3: 1, 11: 1, 19: 1, 37: 1, 55: 1, 87: 1, 4: 2, 12: 2, 20: 2, 38: 2, 56: 2, 88: 2,
+                     5: 3, 13: 3, 31: 3, 49: 3, 81: 3, 113: 3, 6: 4, 14: 4, 32: 4, 50: 4, 82: 4, 114: 4,
+                     7: 5, 15: 5, 33: 5, 51: 5, 115: 5, 8: 6, 16: 6, 34: 6, 52: 6, 84: 6, 116: 6,
+                     9: 7, 17: 7, 35: 7, 53: 7, 85: 7, 117: 7, 2: 2, 10: 8, 18: 8, 36: 8, 54: 8, 86: 8, 118: 8}
 # lowest normal valence of the common charged states (isoelectronic rule)
 CHARGED_VALENCE = {(5, -1): 4, (6, 1): 3, (6, -1): 3, (7, 1): 4, (7, -1): 2, (8, 1): 3, (8, -1): 1, (8, -2): 0, (9, -1): 0,
                    (15, 1): 4, (15, -1): 2, (16, -1): 1, (16, -2): 0, (17, -1): 0, (35, -1): 0, (53, -1): 0}
@@ -468,8 +470,12 @@ def correspond(ctx):
     ctx.c04_bad_mols = []
     ctx.cov['programs'] = 12  # implicify_hydrogens, explicify_hydrogens, check_implicit on stored marks after canonicalize/standardize/kekule/thiele, _compiled_valence_rules, calc_implicit, check_implicit, check_valence, fix_structure, brutto, molecular_charge, is_radical, molecular_mass
     if not ctx.build_ok:
-        ctx.notes.append('Lean build failed: driver streams skipped')
-        return
+        # a table theorem of Props/C04.lean failing does not stop the driver (Model + Gen only) from building
+        ok, out, _ = core.lake_build(['drv_c04'])
+        if not ok:
+            ctx.notes.append('Lean build failed including the driver: driver streams skipped')
+            return
+        ctx.notes.append('Props/C04.lean failed to build; the driver built, correspondence streams run anyway')
     from chython.periodictable import Element
 
     # -- stream 1: compiled tables of all 118 elements ------------------------------------------
